@@ -422,3 +422,297 @@ Lemma wr_coll_too_long {A : Type} signed (w : A -> option bytes) l :
 Proof.
   unfold len_ok, wr_coll. intros H. replace (coll_max signed <? N.of_nat (length l)) with true by lia. reflexivity.
 Qed.
+
+(* ====================================================================================== *)
+(* Everything the parser returns lies in the round-trip domain.  Input: a byte string (every element below 256)
+   shorter than 2^31.  Consequences (Props/C20.v): wf_anim is exactly the image of the parser, and re-serialising
+   a parsed animation and parsing again gives the same animation ("second generation is a fixed point"). *)
+
+Definition short (bs : bytes) : Prop := N.of_nat (length bs) <= 2147483647.
+
+Definition reads_ok {A : Type} (p : bytes -> option (A * bytes)) (ok : A -> bool) : Prop :=
+  forall bs x r, bytes_okb bs = true -> p bs = Some (x, r) ->
+                 ok x = true /\ bytes_okb r = true /\ (length r <= length bs)%nat.
+
+Lemma take_ok n bs a r : bytes_okb bs = true -> take n bs = Some (a, r) ->
+  bytes_okb a = true /\ bytes_okb r = true /\ length a = n /\ (length r + n = length bs)%nat.
+Proof.
+  intros Hb H. apply take_some in H as [-> Hl]. rewrite bytes_okb_app in Hb. apply andb_prop in Hb as [Ha Hr].
+  rewrite app_length. repeat split; try assumption. lia.
+Qed.
+
+Lemma reads_u n : reads_ok (rd_u n) (u_ok n).
+Proof.
+  intros bs x r Hb H. unfold rd_u in H. destruct (take n bs) as [[a r']|] eqn:E; [|discriminate].
+  cbn [obind] in H. injection H as <- <-. destruct (take_ok n bs a r' Hb E) as (Ha & Hr & Hl & Hlen).
+  split; [|split; [exact Hr | lia]].
+  unfold u_ok. pose proof (of_le_bound a Ha) as Hbd. rewrite Hl in Hbd. lia.
+Qed.
+
+Lemma reads_s n : (0 < n)%nat -> reads_ok (rd_s n) (s_ok n).
+Proof.
+  intros Hn bs x r Hb H. unfold rd_s in H. destruct (take n bs) as [[a r']|] eqn:E; [|discriminate].
+  cbn [obind] in H. injection H as <- <-. destruct (take_ok n bs a r' Hb E) as (Ha & Hr & Hl & Hlen).
+  split; [|split; [exact Hr | lia]].
+  pose proof (of_le_bound a Ha) as Hbd. rewrite Hl in Hbd.
+  pose proof (to_signed_range n (of_le a) Hn Hbd) as Hs. unfold signed_range in Hs. unfold s_ok. lia.
+Qed.
+
+Lemma span_nul_spec : forall bs s r, span_nul bs = (s, r) -> bytes_okb bs = true ->
+  bytes_okb s = true /\ no_nul s = true /\ bytes_okb r = true /\ (length r <= length bs)%nat.
+Proof.
+  induction bs as [|b bs IH]; intros s r H Hb; cbn [span_nul] in H.
+  - injection H as <- <-. repeat split; reflexivity || (cbn; lia).
+  - rewrite bytes_okb_cons in Hb. apply andb_prop in Hb as [Hb0 Hb1].
+    destruct (b =? 0) eqn:E0.
+    + injection H as <- <-. repeat split; try reflexivity; try assumption. cbn. lia.
+    + destruct (span_nul bs) as [a t] eqn:Es. injection H as <- <-.
+      destruct (IH a t eq_refl Hb1) as (A1 & A2 & A3 & A4).
+      repeat split.
+      * rewrite bytes_okb_cons, Hb0, A1. reflexivity.
+      * cbn [no_nul forallb]. rewrite E0. cbn. exact A2.
+      * exact A3.
+      * cbn [length]. lia.
+Qed.
+
+Lemma reads_cstr : reads_ok rd_cstr cstr_ok.
+Proof.
+  intros bs x r Hb H. unfold rd_cstr in H. destruct (span_nul bs) as [s t] eqn:Es.
+  destruct (utf8_valid s) eqn:Eu; [|discriminate]. injection H as <- <-.
+  destruct (span_nul_spec bs s t Es Hb) as (A1 & A2 & A3 & A4).
+  split; [|split; assumption]. unfold cstr_ok. rewrite A1, A2, Eu. reflexivity.
+Qed.
+
+Lemma rstrip0_spec : forall l, bytes_okb l = true ->
+  bytes_okb (rstrip0 l) = true /\ (length (rstrip0 l) <= length l)%nat /\ negb (last (rstrip0 l) 1 =? 0) = true.
+Proof.
+  induction l as [|b l IH]; intros Hb; cbn [rstrip0].
+  - repeat split; reflexivity || (cbn; lia).
+  - rewrite bytes_okb_cons in Hb. apply andb_prop in Hb as [Hb0 Hb1]. destruct (IH Hb1) as (A1 & A2 & A3).
+    destruct (rstrip0 l) as [|c r'] eqn:Er.
+    + destruct (b =? 0) eqn:E0.
+      * repeat split; reflexivity || (cbn; lia).
+      * repeat split.
+        -- rewrite bytes_okb_cons, Hb0. reflexivity.
+        -- cbn. lia.
+        -- cbn [last]. rewrite E0. reflexivity.
+    + repeat split.
+      * rewrite bytes_okb_cons, Hb0, A1. reflexivity.
+      * cbn [length] in *. lia.
+      * exact A3.
+Qed.
+
+Lemma reads_fixed n : reads_ok (rd_fixed n) (fixed_ok n).
+Proof.
+  intros bs x r Hb H. unfold rd_fixed in H. destruct (take n bs) as [[f r']|] eqn:E; [|discriminate].
+  cbn [obind] in H. destruct (utf8_valid (rstrip0 f)) eqn:Eu; [|discriminate]. injection H as <- <-.
+  destruct (take_ok n bs f r' Hb E) as (Hf & Hr & Hl & Hlen).
+  destruct (rstrip0_spec f Hf) as (A1 & A2 & A3).
+  split; [|split; [exact Hr | lia]].
+  unfold fixed_ok. rewrite A1, A3, Eu. replace (length (rstrip0 f) <=? n)%nat with true by lia. reflexivity.
+Qed.
+
+Lemma reads_rep {A : Type} (p : bytes -> option (A * bytes)) ok : reads_ok p ok ->
+  forall n bs l r, bytes_okb bs = true -> rd_rep p n bs = Some (l, r) ->
+                   forallb ok l = true /\ bytes_okb r = true /\ (length r <= length bs)%nat.
+Proof.
+  intros Hp. induction n as [|n IH]; intros bs l r Hb H; cbn [rd_rep] in H.
+  - injection H as <- <-. repeat split; [exact Hb | lia].
+  - destruct (p bs) as [[x r1]|] eqn:E1; [|discriminate]. cbn [obind] in H.
+    destruct (rd_rep p n r1) as [[xs r2]|] eqn:E2; [|discriminate]. cbn [obind] in H. injection H as <- <-.
+    destruct (Hp bs x r1 Hb E1) as (A1 & A2 & A3). destruct (IH r1 xs r2 A2 E2) as (B1 & B2 & B3).
+    cbn [forallb]. rewrite A1, B1. repeat split; [exact B2 | lia].
+Qed.
+
+Lemma reads_coll {A : Type} signed (p : bytes -> option (A * bytes)) ok : reads_ok p ok -> consumes p ->
+  forall bs l r, bytes_okb bs = true -> short bs -> rd_coll signed p bs = Some (l, r) ->
+                 len_ok signed l = true /\ forallb ok l = true /\ bytes_okb r = true /\ (length r <= length bs)%nat.
+Proof.
+  intros Hp Hc bs l r Hb Hs H.
+  pose proof (rd_coll_length signed p bs l r Hc H) as [L1 L2].
+  unfold rd_coll in H.
+  assert (Hhd : forall c r1, (if signed then rd_s 4 bs else do '(u, r) <- rd_u 4 bs; Some (Z.of_N u, r)) = Some (c, r1) ->
+                             bytes_okb r1 = true /\ (length r1 <= length bs)%nat).
+  { intros c r1 E. destruct signed.
+    - destruct (reads_s 4 pos4 bs c r1 Hb E) as (_ & Q1 & Q2). split; assumption.
+    - destruct (rd_u 4 bs) as [[u r']|] eqn:Eu; [|discriminate]. cbn [obind] in E. injection E as _ <-.
+      destruct (reads_u 4 bs u r' Hb Eu) as (_ & Q1 & Q2). split; assumption. }
+  destruct (if signed then rd_s 4 bs else do '(u, r) <- rd_u 4 bs; Some (Z.of_N u, r)) as [[c r1]|] eqn:E; [|discriminate].
+  cbn [obind] in H. destruct (Hhd c r1 eq_refl) as [Hb1 Hl1].
+  assert (Hlen : len_ok signed l = true).
+  { unfold len_ok, short in *. destruct signed; [rewrite coll_max_true | rewrite coll_max_false]; lia. }
+  unfold rd_counted in H. destruct (c <=? 0)%Z.
+  - injection H as <- <-. repeat split; try assumption; try reflexivity.
+  - destruct (Z.of_nat (length r1) <? c)%Z; [discriminate|].
+    destruct (reads_rep p ok Hp _ r1 l r Hb1 H) as (A1 & A2 & A3).
+    repeat split; try assumption. lia.
+Qed.
+
+Lemma reads_key w : reads_ok (rd_key (Some w)) (kf_ok w).
+Proof.
+  intros bs x r Hb H. unfold rd_key in H.
+  destruct (rd_u w bs) as [[t r1]|] eqn:E1; [|discriminate]. cbn [obind] in H.
+  destruct (rd_u w r1) as [[x1 r2]|] eqn:E2; [|discriminate]. cbn [obind] in H.
+  destruct (rd_u w r2) as [[y1 r3]|] eqn:E3; [|discriminate]. cbn [obind] in H.
+  destruct (rd_u w r3) as [[z1 r4]|] eqn:E4; [|discriminate]. cbn [obind] in H. injection H as <- <-.
+  destruct (reads_u w bs t r1 Hb E1) as (A1 & A2 & A3).
+  destruct (reads_u w r1 x1 r2 A2 E2) as (B1 & B2 & B3).
+  destruct (reads_u w r2 y1 r3 B2 E3) as (C1 & C2 & C3).
+  destruct (reads_u w r3 z1 r4 C2 E4) as (D1 & D2 & D3).
+  unfold kf_ok. cbn [k_time k_x k_y k_z]. rewrite A1, B1, C1, D1. split; [reflexivity|]. split; [exact D2|].
+  clear - A3 B3 C3 D3. lia.
+Qed.
+
+Lemma reads_keys ow : ow_pos ow ->
+  forall bs l r, bytes_okb bs = true -> short bs -> rd_coll true (rd_key ow) bs = Some (l, r) ->
+                 len_ok true l = true /\ keys_ok ow l = true /\ bytes_okb r = true /\ (length r <= length bs)%nat.
+Proof.
+  intros Hp bs l r Hb Hs H. destruct ow as [w|].
+  - destruct (reads_coll true _ _ (reads_key w) (rd_key_consumes (Some w) Hp) bs l r Hb Hs H) as (A & B & C & D).
+    repeat split; assumption.
+  - (* no version: the key reader always raises, so only the empty list can have been read *)
+    destruct (reads_coll true (rd_key None) (fun _ => false)) with (bs := bs) (l := l) (r := r) as (A & B & C & D);
+      try assumption.
+    + intros bs' x r' _ H'. discriminate.
+    + apply rd_key_consumes. exact I.
+    + repeat split; try assumption. destruct l; [reflexivity | discriminate].
+Qed.
+
+Lemma short_le (a b : bytes) : (length a <= length b)%nat -> short b -> short a.
+Proof. unfold short. lia. Qed.
+
+Lemma reads_joint ow : ow_pos ow ->
+  forall bs x r, bytes_okb bs = true -> short bs -> rd_joint ow bs = Some (x, r) ->
+                 joint_ok ow x = true /\ bytes_okb r = true /\ (length r <= length bs)%nat.
+Proof.
+  intros Hp bs x r Hb Hs H. unfold rd_joint in H.
+  destruct (rd_cstr bs) as [[nm r1]|] eqn:E1; [|discriminate]. cbn [obind] in H.
+  destruct (rd_s 4 r1) as [[pr r2]|] eqn:E2; [|discriminate]. cbn [obind] in H.
+  destruct (rd_coll true (rd_key ow) r2) as [[rot r3]|] eqn:E3; [|discriminate]. cbn [obind] in H.
+  destruct (rd_coll true (rd_key ow) r3) as [[pos r4]|] eqn:E4; [|discriminate]. cbn [obind] in H.
+  injection H as <- <-.
+  destruct (reads_cstr bs nm r1 Hb E1) as (A1 & A2 & A3).
+  destruct (reads_s 4 pos4 r1 pr r2 A2 E2) as (B1 & B2 & B3).
+  destruct (reads_keys ow Hp r2 rot r3 B2 (short_le r2 bs ltac:(clear - A3 B3; lia) Hs) E3) as (C0 & C1 & C2 & C3).
+  destruct (reads_keys ow Hp r3 pos r4 C2 (short_le r3 bs ltac:(clear - A3 B3 C3; lia) Hs) E4) as (D0 & D1 & D2 & D3).
+  unfold joint_ok. cbn [j_name j_prio j_rot j_pos]. rewrite A1, B1, C0, C1, D0, D1.
+  split; [reflexivity|]. split; [exact D2|]. clear - A3 B3 C3 D3. lia.
+Qed.
+
+Lemma reads_vec3 : reads_ok rd_vec3 vec3_ok.
+Proof.
+  intros bs x r Hb H. unfold rd_vec3 in H.
+  destruct (rd_u 4 bs) as [[x1 r1]|] eqn:E1; [|discriminate]. cbn [obind] in H.
+  destruct (rd_u 4 r1) as [[y1 r2]|] eqn:E2; [|discriminate]. cbn [obind] in H.
+  destruct (rd_u 4 r2) as [[z1 r3]|] eqn:E3; [|discriminate]. cbn [obind] in H. injection H as <- <-.
+  destruct (reads_u 4 bs x1 r1 Hb E1) as (A1 & A2 & A3).
+  destruct (reads_u 4 r1 y1 r2 A2 E2) as (B1 & B2 & B3).
+  destruct (reads_u 4 r2 z1 r3 B2 E3) as (C1 & C2 & C3).
+  cbn [vec3_ok]. rewrite A1, B1, C1. split; [reflexivity|]. split; [exact C2|]. clear - A3 B3 C3. lia.
+Qed.
+
+Lemma reads_constr : reads_ok rd_constr constr_ok.
+Proof.
+  intros bs x r Hb H. unfold rd_constr in H.
+  destruct (rd_u 1 bs) as [[ch r1]|] eqn:E1; [|discriminate]. cbn [obind] in H.
+  destruct (rd_u 1 r1) as [[ty r2]|] eqn:E2; [|discriminate]. cbn [obind] in H.
+  destruct (rd_fixed 16 r2) as [[sv r3]|] eqn:E3; [|discriminate]. cbn [obind] in H.
+  destruct (rd_vec3 r3) as [[so r4]|] eqn:E4; [|discriminate]. cbn [obind] in H.
+  destruct (rd_fixed 16 r4) as [[tv r5]|] eqn:E5; [|discriminate]. cbn [obind] in H.
+  destruct (rd_vec3 r5) as [[t_o r6]|] eqn:E6; [|discriminate]. cbn [obind] in H.
+  destruct (rd_vec3 r6) as [[td r7]|] eqn:E7; [|discriminate]. cbn [obind] in H.
+  destruct (rd_u 4 r7) as [[e1 r8]|] eqn:E8; [|discriminate]. cbn [obind] in H.
+  destruct (rd_u 4 r8) as [[e2 r9]|] eqn:E9; [|discriminate]. cbn [obind] in H.
+  destruct (rd_u 4 r9) as [[e3 r10]|] eqn:E10; [|discriminate]. cbn [obind] in H.
+  destruct (rd_u 4 r10) as [[e4 r11]|] eqn:E11; [|discriminate]. cbn [obind] in H. injection H as <- <-.
+  destruct (reads_u 1 bs ch r1 Hb E1) as (A1 & A2 & A3).
+  destruct (reads_u 1 r1 ty r2 A2 E2) as (B1 & B2 & B3).
+  destruct (reads_fixed 16 r2 sv r3 B2 E3) as (C1 & C2 & C3).
+  destruct (reads_vec3 r3 so r4 C2 E4) as (D1 & D2 & D3).
+  destruct (reads_fixed 16 r4 tv r5 D2 E5) as (F1 & F2 & F3).
+  destruct (reads_vec3 r5 t_o r6 F2 E6) as (G1 & G2 & G3).
+  destruct (reads_vec3 r6 td r7 G2 E7) as (H1 & H2 & H3).
+  destruct (reads_u 4 r7 e1 r8 H2 E8) as (I1 & I2 & I3).
+  destruct (reads_u 4 r8 e2 r9 I2 E9) as (J1 & J2 & J3).
+  destruct (reads_u 4 r9 e3 r10 J2 E10) as (K1 & K2 & K3).
+  destruct (reads_u 4 r10 e4 r11 K2 E11) as (M1 & M2 & M3).
+  unfold constr_ok.
+  cbn [c_chain c_type c_src_vol c_src_off c_tgt_vol c_tgt_off c_tgt_dir c_ease_in_start c_ease_in_stop c_ease_out_start c_ease_out_stop].
+  rewrite A1, B1, C1, D1, F1, G1, H1, I1, J1, K1, M1. split; [reflexivity|]. split; [exact M2|].
+  clear - A3 B3 C3 D3 F3 G3 H3 I3 J3 K3 M3. lia.
+Qed.
+
+Lemma reads_joints ow : ow_pos ow ->
+  forall bs l r, bytes_okb bs = true -> short bs -> rd_coll false (rd_joint ow) bs = Some (l, r) ->
+                 len_ok false l = true /\ forallb (joint_ok ow) l = true /\ bytes_okb r = true /\ (length r <= length bs)%nat.
+Proof.
+  (* rd_joint needs [short] for its own collections, so reads_coll is replayed with the bound threaded through *)
+  intros Hp bs l r Hb Hs H.
+  pose proof (rd_coll_length false _ bs l r (rd_joint_consumes ow Hp) H) as [L1 L2].
+  unfold rd_coll in H.
+  destruct (rd_u 4 bs) as [[u r1]|] eqn:Eu; [|discriminate]. cbn [obind] in H.
+  destruct (reads_u 4 bs u r1 Hb Eu) as (_ & Hb1 & Hl1).
+  assert (Hlen : len_ok false l = true).
+  { unfold len_ok, short in *. rewrite coll_max_false. lia. }
+  unfold rd_counted in H. destruct (Z.of_N u <=? 0)%Z.
+  - injection H as <- <-. repeat split; try assumption; try reflexivity.
+  - destruct (Z.of_nat (length r1) <? Z.of_N u)%Z; [discriminate|].
+    assert (Hrep : forall n bs' l' r', bytes_okb bs' = true -> short bs' -> rd_rep (rd_joint ow) n bs' = Some (l', r') ->
+                     forallb (joint_ok ow) l' = true /\ bytes_okb r' = true /\ (length r' <= length bs')%nat).
+    { induction n as [|n IH]; intros bs' l' r' Hb' Hs' H'; cbn [rd_rep] in H'.
+      - injection H' as <- <-. repeat split; [exact Hb' | lia].
+      - destruct (rd_joint ow bs') as [[x r2]|] eqn:E1; [|discriminate]. cbn [obind] in H'.
+        destruct (rd_rep (rd_joint ow) n r2) as [[xs r3]|] eqn:E2; [|discriminate]. cbn [obind] in H'.
+        injection H' as <- <-.
+        destruct (reads_joint ow Hp bs' x r2 Hb' Hs' E1) as (A1 & A2 & A3).
+        destruct (IH r2 xs r3 A2 (short_le _ _ A3 Hs') E2) as (B1 & B2 & B3).
+        cbn [forallb]. rewrite A1, B1. repeat split; [exact B2 | lia]. }
+    destruct (Hrep _ r1 l r Hb1 (short_le _ _ Hl1 Hs) H) as (A1 & A2 & A3).
+    repeat split; try assumption. lia.
+Qed.
+
+Theorem parse_anim_wf bs a r : bytes_okb bs = true -> short bs -> parse_anim bs = Some (a, r) ->
+  wf_anim a = true /\ bytes_okb r = true /\ (length r <= length bs)%nat.
+Proof.
+  intros Hb Hs H. unfold parse_anim in H.
+  destruct (rd_u 2 bs) as [[maj r1]|] eqn:E1; [|discriminate]. cbn [obind] in H.
+  destruct (rd_u 2 r1) as [[mi r2]|] eqn:E2; [|discriminate]. cbn [obind] in H.
+  destruct (rd_s 4 r2) as [[bp r3]|] eqn:E3; [|discriminate]. cbn [obind] in H.
+  destruct (rd_u 4 r3) as [[du r4]|] eqn:E4; [|discriminate]. cbn [obind] in H.
+  destruct (rd_cstr r4) as [[em r5]|] eqn:E5; [|discriminate]. cbn [obind] in H.
+  destruct (rd_u 4 r5) as [[li r6]|] eqn:E6; [|discriminate]. cbn [obind] in H.
+  destruct (rd_u 4 r6) as [[lo r7]|] eqn:E7; [|discriminate]. cbn [obind] in H.
+  destruct (rd_s 4 r7) as [[lp r8]|] eqn:E8; [|discriminate]. cbn [obind] in H.
+  destruct (rd_u 4 r8) as [[ei r9]|] eqn:E9; [|discriminate]. cbn [obind] in H.
+  destruct (rd_u 4 r9) as [[eo r10]|] eqn:E10; [|discriminate]. cbn [obind] in H.
+  destruct (rd_u 4 r10) as [[hp r11]|] eqn:E11; [|discriminate]. cbn [obind] in H.
+  destruct (rd_coll false (rd_joint (key_width maj mi)) r11) as [[js r12]|] eqn:E12; [|discriminate]. cbn [obind] in H.
+  destruct (rd_coll true rd_constr r12) as [[cs r13]|] eqn:E13; [|discriminate]. cbn [obind] in H.
+  injection H as <- <-.
+  destruct (reads_u 2 bs maj r1 Hb E1) as (A1 & A2 & A3).
+  destruct (reads_u 2 r1 mi r2 A2 E2) as (B1 & B2 & B3).
+  destruct (reads_s 4 pos4 r2 bp r3 B2 E3) as (C1 & C2 & C3).
+  destruct (reads_u 4 r3 du r4 C2 E4) as (D1 & D2 & D3).
+  destruct (reads_cstr r4 em r5 D2 E5) as (F1 & F2 & F3).
+  destruct (reads_u 4 r5 li r6 F2 E6) as (G1 & G2 & G3).
+  destruct (reads_u 4 r6 lo r7 G2 E7) as (H1 & H2 & H3).
+  destruct (reads_s 4 pos4 r7 lp r8 H2 E8) as (I1 & I2 & I3).
+  destruct (reads_u 4 r8 ei r9 I2 E9) as (J1 & J2 & J3).
+  destruct (reads_u 4 r9 eo r10 J2 E10) as (K1 & K2 & K3).
+  destruct (reads_u 4 r10 hp r11 K2 E11) as (M1 & M2 & M3).
+  destruct (reads_joints _ (key_width_pos maj mi) r11 js r12 M2 (short_le r11 bs ltac:(clear - A3 B3 C3 D3 F3 G3 H3 I3 J3 K3 M3; lia) Hs) E12) as (N0 & N1 & N2 & N3).
+  destruct (reads_coll true _ _ reads_constr rd_constr_consumes r12 cs r13 N2 (short_le r12 bs ltac:(clear - A3 B3 C3 D3 F3 G3 H3 I3 J3 K3 M3 N3; lia) Hs) E13)
+    as (P0 & P1 & P2 & P3).
+  unfold wf_anim.
+  cbn [a_major a_minor a_base_prio a_duration a_emote a_loop_in a_loop_out a_loop a_ease_in a_ease_out a_hand_pose a_joints a_constraints].
+  rewrite A1, B1, C1, D1, F1, G1, H1, I1, J1, K1, M1, N0, N1, P0, P1.
+  split; [reflexivity|]. split; [exact P2|]. clear - A3 B3 C3 D3 F3 G3 H3 I3 J3 K3 M3 N3 P3. lia.
+Qed.
+
+(* re-serialising what was parsed and parsing again gives the same animation and the same rest *)
+Theorem anim_reparse bs a r : bytes_okb bs = true -> short bs -> parse_anim bs = Some (a, r) ->
+  exists bs', write_anim a = Some bs' /\ parse_anim (bs' ++ r) = Some (a, r).
+Proof.
+  intros Hb Hs H. destruct (parse_anim_wf bs a r Hb Hs H) as (Hwf & _ & _).
+  destruct (anim_rt a Hwf) as (bs' & Hw & _ & Hp). exists bs'. split; [exact Hw | apply Hp].
+Qed.
